@@ -198,12 +198,21 @@ def run(pm, ctx):
     else:
         ctx.unrecognised("C15-a", site, "no read of X through the items of cut_points_list_ was identified")
     # construction of cut_points_list_
+    from ..astutil import deref_self_aliases
+    ip = deref_self_aliases(ip)
     stores = [s for s in ast.walk(ip) if isinstance(s, ast.Assign) and attr_chain(s.targets[0]) == "self.cut_points_list_"]
     site = "Douglas._init_params: cut_points_list_"
     probs = []
-    if len(stores) != 2:
+    merged = False
+    if len(stores) == 1 and isinstance(stores[0].value, ast.ListComp) and len(stores[0].value.generators) == 1:
+        # one construction for both cases: a feature is kept iff there is no mask or the mask holds for it
+        g0 = stores[0].value.generators[0]
+        t0 = norm_src(g0.target)
+        if [str(norm_src(c)) for c in g0.ifs] in ([f"self.feature_mask is None or self.feature_mask[{t0}]"], [f"self.feature_mask[{t0}] if self.feature_mask is not None else True"]):
+            merged = True
+    if len(stores) != 2 and not merged:
         probs.append(f"{len(stores)} constructions (expected masked and unmasked)")
-    for s in stores:
+    for s in ([] if merged else stores):
         v = s.value
         if not (isinstance(v, ast.ListComp) and len(v.generators) == 1 and norm_src(v.generators[0].iter) == "range(X.shape[1])" and isinstance(v.elt, ast.Tuple)
                 and norm_src(v.elt.elts[0]) == norm_src(v.generators[0].target)):
@@ -216,6 +225,10 @@ def run(pm, ctx):
             probs.append("the masked construction does not filter by feature_mask[i]")
         if not masked and ifs:
             probs.append("the unmasked construction filters features")
+    if merged:
+        v = stores[0].value
+        if not (norm_src(v.generators[0].iter) == "range(X.shape[1])" and isinstance(v.elt, ast.Tuple) and norm_src(v.elt.elts[0]) == norm_src(v.generators[0].target)):
+            probs.append(f"`{norm_src(stores[0])[:80]}` does not pair each feature index with its cuts")
     if probs:
         ctx.violation("C15-a", u.relpath, "Douglas._init_params", norm_src(stores[0])[:120] if stores else "cut_points_list_", "; ".join(probs), line=ip.lineno, site=site)
     else:
@@ -250,7 +263,7 @@ def run(pm, ctx):
             ls_src = str(norm_src(ls[0].value))
     okk = okk and len(ls) == 1 and ("size=(num_leaf, self.n_clusters)" in norm_src(ls[0].value) or "size=(num_leaf, self.n_clusters)" in ls_src)
     draws = [n for n in ast.walk(ip) if isinstance(n, ast.Call) and (call_name(n) or "").endswith(".normal") and "n_cuts" in norm_src(n)]
-    okk = okk and len(draws) == 2 and all(norm_src(kw.value) in ("(self.n_cuts,)", "self.n_cuts") for d in draws for kw in d.keywords if kw.arg == "size")
+    okk = okk and len(draws) == (1 if merged else 2) and all(norm_src(kw.value) in ("(self.n_cuts,)", "self.n_cuts") for d in draws for kw in d.keywords if kw.arg == "size")
     if okk:
         ctx.ok("C15-b", site, "(n_cuts+1) ** #used features rows, n_cuts cuts per used feature")
     elif nl:
